@@ -56,6 +56,8 @@ var c04Alphabet = func() []string {
 }()
 
 var c04Directed = []string{
+	// comments and raw strings containing carriage returns, terminated or not (the CR-stripping helper)
+	"/**\r", "/**\r\r", "/*\r*\r", "a := 1 /* x\r*\r", "/* a\r*/", "/* a *\r/ */", "/*\r", "//\r", "// c\r\n/*\r*", "`\r", "`a\r`", "x := `a\r\nb\r`", "`\r`\r", "x := `\r", "/*\r*/ /**\r", "a /*\r*\r\r\r",
 	"len = 5", "len++", "len += 1", "for { f := func() { break } }", "for { f := func() { continue } }", "for a, b, c in [1] {}", "for a, b, c, d in x {}", "for 1, 2 in x {}",
 	"a, b := 1, 2", "a, b = 1", "a.b := 1", "1 = 2", "f() = 1", "x := x", "return 1", "export 1; export 2", "func() { export 1 }()", "import(\"\")", "import(\"nope\")", "import(1)", "import()",
 	"x := import(\"self\")", "break", "continue", "if { }", "if ; { }", "if x := 1 { }", "for ; ; ; { }", "for x in { }", "func(", "func(a, a) {}", "func(...a, b) {}", "func(a..., b) {}", "a ? b", "a ? b : ",
